@@ -179,7 +179,7 @@ pub const PREDS: [(u64, &[CT]); 7] = [
     (1029, &[CT::Int, CT::Any, CT::Bool]),
     (1030, &[CT::Any]),
 ];
-pub const SYMS: [&str; 12] = ["p0", "p1", "p2", "p3", "p4", "p5", "p6", "a", "b", "ab", "file1", "x"];
+pub const SYMS: [&str; 16] = ["p0", "p1", "p2", "p3", "p4", "p5", "p6", "a", "b", "ab", "file1", "x", "re", "ad", "", "us"];
 
 pub fn const_of(rng: &mut StdRng, t: CT) -> Term {
     match t {
@@ -274,7 +274,7 @@ impl RuleGen {
                 ops.push(Op::Value(Term::Integer(2)));
                 ops.push(Op::Binary(Binary::GreaterThan));
             }
-            5 | 6 if !strs.is_empty() => {
+            5 if !strs.is_empty() => {
                 ops.push(Op::Value(Term::Variable(*pick(rng, &strs))));
                 ops.push(Op::Value(Term::Str(1031 + rng.gen_range(0..3))));
                 ops.push(Op::Binary(pick(rng, &[Binary::Prefix, Binary::Contains, Binary::Equal, Binary::Suffix]).clone()));
@@ -290,6 +290,22 @@ impl RuleGen {
                 ops.push(Op::Value(Term::Variable(*pick(rng, &anys))));
                 ops.push(Op::Value(Term::Integer(1)));
                 ops.push(Op::Binary(Binary::HeterogeneousNotEqual));
+            }
+            5 | 6 => {
+                // a string built during evaluation and compared with one that is in the table: `"a" + "b"` is `"ab"`,
+                // `"re" + "ad"` is the default symbol `"read"`, the same string built twice is the same string
+                let (l, r, whole): (u64, u64, u64) = *pick(rng, &[(1031, 1032, 1033), (1036, 1037, 0), (1038, 0, 0), (0, 1038, 0), (1039, 1032, 1033), (1031, 1031, 1033)]);
+                ops.push(Op::Value(Term::Str(l)));
+                ops.push(Op::Value(Term::Str(r)));
+                ops.push(Op::Binary(Binary::Add));
+                if rng.gen_range(0..3) == 0 {
+                    ops.push(Op::Value(Term::Str(l)));
+                    ops.push(Op::Value(Term::Str(r)));
+                    ops.push(Op::Binary(Binary::Add));
+                } else {
+                    ops.push(Op::Value(Term::Str(whole)));
+                }
+                ops.push(Op::Binary(pick(rng, &[Binary::Equal, Binary::HeterogeneousEqual, Binary::NotEqual]).clone()));
             }
             9 => {
                 // a variable that may not be bound by the body
